@@ -44,7 +44,8 @@ def impl_enc(i):
 
 def impl_rev(b, off, mx):
     def f():
-        r = CU.decode_varint_in_reverse(bytearray(b), off, mx)
+        # mx None: the function's own default limit (what the carver uses)
+        r = CU.decode_varint_in_reverse(bytearray(b), off) if mx is None else CU.decode_varint_in_reverse(bytearray(b), off, mx)
         if isinstance(r, InvalidVarIntError):
             # before fix 1c3b10a the exception object was RETURNED; the model now says `err parseError` there,
             # so a regression to the old behaviour shows up as a disagreement
@@ -194,11 +195,12 @@ def run(ctx):
         cases.append((f"varint.rev {hx(buf)} {o2} {mx}", impl_rev(buf, o2, mx)))
         if v < (1 << 56) and (not pre or pre[-1] < 0x80):
             ctx.mark(("rev-spec", v, pre))
-            got = impl_rev(buf, len(buf), 9)
             want = f"ok {v} {len(pre)}"
-            if got != want:
-                ctx.oracle_fail("rev-spec", "reverse varint decode does not recover value/start of a <=8 byte varint",
-                                {"op": "varint.rev", "hex": hx(buf), "off": len(buf), "max": 9}, got, want)
+            for limit in (9, None):
+                got = impl_rev(buf, len(buf), limit)
+                if got != want:
+                    ctx.oracle_fail("rev-spec", "reverse varint decode does not recover value/start of a <=8 byte varint",
+                                    {"op": "varint.rev", "hex": hx(buf), "off": len(buf), "max": limit if limit else "default"}, got, want)
     ctx.differential(cases, "varint.rev")
 
     # --- serial types
